@@ -20,9 +20,10 @@ PID = "C14"
 FIELDS_MAP = ["psigs", "bip32", "ripemd", "sha256", "hash160", "hash256", "tapsigs", "tapscripts",
               "taporigins", "prop", "unknown"]
 SANITY_CLASSES = (2, 3, 4)
-# Verdicts that are recorded but are not violations of C14: the finalizer took utxo data that NO
-# checked update had accepted (a signer that does not do BIP174's utxo checks signed for it).
-OBSERVATION_KEYS = ("unchecked-utxo-finalized",)
+# Verdicts that are recorded but are not violations of C14 (none today: since /repo 55036e60 the
+# finalizer takes the spent output from a present non_witness_utxo, so `unchecked-utxo-finalized`
+# and `foreign-prev-tx-finalized` are violations).
+OBSERVATION_KEYS = ()
 
 
 # ------------------------------------------------------------------ harness
@@ -205,18 +206,22 @@ def oracle_tables(g, h, mall_of):
             if r["k"] == "ok":
                 tries.append((tuple(cur), i, mall_of(o["m"]), outcome(i)))
             elif r["k"] == "inperr":
-                tries.append((tuple(cur), i, mall_of(o["m"]), ("err", r["e"])))
+                tries.append((tuple(cur), i, mall_of(o["m"]), ("err", r["i"], r["e"])))
         elif k == "fin" and r["k"] in ("ok", "finerrs"):
-            errs = dict((i, e) for i, e in r.get("es", []))
+            # the error vector lists the failed attempts in input order; its indices are the
+            # code's own (prevouts blames the first input without a findable utxo), so failed
+            # attempts are matched to entries by position, not by index
+            es, ei = list(r.get("es", [])), 0
             st = list(cur)
             for i in range(n):
                 if g.is_final(st[i]):
                     continue
-                if i in errs:
-                    tries.append((tuple(st), i, o["m"], ("err", errs[i])))
-                else:
+                if g.is_final(nxt[i]) or nxt[i] != st[i]:
                     tries.append((tuple(st), i, o["m"], outcome(i)))
                     st[i] = nxt[i]
+                elif ei < len(es):
+                    tries.append((tuple(st), i, o["m"], ("err", es[ei][0], es[ei][1])))
+                    ei += 1
         elif k == "finold" and r["k"] in ("ok", "inperr"):
             sanity = r["k"] == "inperr" and r["e"] in SANITY_CLASSES and list(nxt) == list(cur)
             if not sanity:
@@ -224,8 +229,8 @@ def oracle_tables(g, h, mall_of):
                 for i in range(n):
                     if g.is_final(st[i]):
                         continue
-                    if r["k"] == "inperr" and r["i"] == i:
-                        tries.append((tuple(st), i, o["m"], ("err", r["e"])))
+                    if r["k"] == "inperr" and not g.is_final(nxt[i]) and nxt[i] == st[i]:
+                        tries.append((tuple(st), i, o["m"], ("err", r["i"], r["e"])))
                         break
                     tries.append((tuple(st), i, o["m"], outcome(i)))
                     st[i] = nxt[i]
@@ -272,7 +277,7 @@ def build_gen(data, hists):
                 continue
             seen.add((st, i, m))
             used_inputs.update(st)
-            res = "TOk %d %d" % (oc[1], oc[2]) if oc[0] == "ok" else "TErr %d" % oc[1]
+            res = "TOk %d %d" % (oc[1], oc[2]) if oc[0] == "ok" else "TErr %d%%nat %d" % (oc[1], oc[2])
             tl.append("mkT %s %d%%nat %s (%s)" % (st_str(st), i, cbool(m), res))
         il, seen = [], set()
         for (st, oc) in interps:
